@@ -26,7 +26,7 @@ ODD_NPO, ODD_PPO = 77, 55
 
 UNIT_KINDS = ("SH", "PIC", "FRAG0", "FRAG1", "PAD0", "PAD1", "PAD5", "AUX0", "AUX3", "EOS")
 FEATURES = ("none", "ld", "fr12", "sr5", "cs5", "prim4", "matrix4", "tf4")
-TRANSFORMS = ("sym", "asym_index", "asym_depth", "etp_neutral")
+TRANSFORMS = ("sym", "asym_index", "asym_depth", "etp_neutral", "index_flag_only_wi1", "index_flag_only", "depth_flag_only", "wi1")
 
 # a unit = (kind, npo, ppo, pn, mv, feature, transform); choice values:
 #   npo/ppo: "omit" | "auto" | "odd";  pn: "omit" | "auto" | 7 | M32-1
@@ -92,6 +92,19 @@ def build_description(seqs):
                     tp["quant_matrix"] = fd.QuantMatrix(custom_quant_matrix=True, quant_matrix=[0, 0])
                 elif tr == "etp_neutral":
                     tp["extended_transform_parameters"] = fd.ExtendedTransformParameters(asym_transform_index_flag=False, asym_transform_flag=False)
+                elif tr == "index_flag_only_wi1":
+                    # flag set, wavelet_index_ho omitted: documented default haar_with_shift (4) != wavelet_index 1 -> asymmetric
+                    tp["wavelet_index"] = 1
+                    tp["extended_transform_parameters"] = fd.ExtendedTransformParameters(asym_transform_index_flag=True)
+                    tp["quant_matrix"] = fd.QuantMatrix(custom_quant_matrix=True, quant_matrix=[0])
+                elif tr == "index_flag_only":
+                    # flag set, both indices at their documented default (4): symmetric after all
+                    tp["extended_transform_parameters"] = fd.ExtendedTransformParameters(asym_transform_index_flag=True)
+                elif tr == "depth_flag_only":
+                    # flag set, dwt_depth_ho omitted: documented default 0 -> symmetric
+                    tp["extended_transform_parameters"] = fd.ExtendedTransformParameters(asym_transform_flag=True)
+                elif tr == "wi1":
+                    tp["wavelet_index"] = 1
                 if kind == "PIC":
                     pi["parse_code"] = PC.low_delay_picture if profile_ld else PC.high_quality_picture
                     ph = fd.PictureHeader()
@@ -128,6 +141,9 @@ def build_description(seqs):
     return fd.Stream(sequences=out)
 
 
+ASYM = ("asym_index", "asym_depth", "index_flag_only_wi1")  # transform variants that are really asymmetric
+HAS_ETP = ("asym_index", "asym_depth", "etp_neutral", "index_flag_only_wi1", "index_flag_only", "depth_flag_only")
+
 CODES = {"SH": 0x00, "EOS": 0x10, "PAD": 0x30, "AUX": 0x20}
 
 
@@ -142,7 +158,7 @@ def required_version(units):
                 v = max(v, 3)
         if kind in ("FRAG0", "FRAG1"):
             v = max(v, 3)
-        if kind in ("PIC", "FRAG0") and tr in ("asym_index", "asym_depth"):
+        if kind in ("PIC", "FRAG0") and tr in ASYM:
             v = max(v, 3)
     return v
 
@@ -206,7 +222,7 @@ def check(seqs, data):
                     problems.append("unit %d (%s): picture number %d, expected %d" % (k, kind, got_pn, want))
                 last_pn = got_pn
                 ld = code in (0xC8, 0xCC)
-                a.update(ld=ld, pn=got_pn, asym=tr in ("asym_index", "asym_depth"))
+                a.update(ld=ld, pn=got_pn, asym=tr in ASYM)
                 if kind != "PIC":
                     a.update(slice_count=0 if kind == "FRAG0" else 1, x_offset=0, y_offset=0)
             if kind == "SH":
@@ -232,6 +248,30 @@ def check(seqs, data):
     return problems, abstract
 
 
+def expected_serialisable(seqs):
+    """Descriptions that must serialise: every sequence is 'SH ... EOS' with exactly one EOS, no
+    picture before the header, and no extended transform parameters under an explicit version < 3."""
+    for units in seqs:
+        kinds = [u[0] for u in units]
+        if not kinds or kinds[0] != "SH" or kinds[-1] != "EOS" or kinds.count("EOS") != 1:
+            return False
+        mv = None
+        have_tp = False
+        for kind, npo, ppo, pn, m, feat, tr in units:
+            if kind == "SH":
+                mv = m
+            if kind == "FRAG1" and not have_tp:
+                return False  # slice geometry unknown: no transform parameters seen yet
+            if kind in ("PIC", "FRAG0"):
+                have_tp = True
+            if kind in ("PIC", "FRAG0") and tr in HAS_ETP and mv in (1, 2):
+                return False
+            if kind in ("PIC", "FRAG0") and tr in ASYM and mv in ("omit", "auto") and False:
+                return False
+        # explicit version 3 without ETP present is fine: defaults fill it in
+    return True
+
+
 def evaluate(seqs):
     """Returns (label, problems)."""
     from vc2_conformance import bitstream as bs
@@ -244,6 +284,8 @@ def evaluate(seqs):
     try:
         bs.autofill_and_serialise_stream(f, stream)
     except Exception as e:  # noqa
+        if expected_serialisable(seqs):
+            return "unserialisable:" + type(e).__name__, ["a well-formed description could not be serialised: %s: %s" % (type(e).__name__, str(e)[:120])]
         return "unserialisable:" + type(e).__name__, []
     data = f.getvalue()
     problems, abstract = check(seqs, data)
